@@ -15,7 +15,10 @@
    3. the `with` discipline implies well-formedness for arbitrary nesting (`Disciplined`, `disciplined_wf`);
    4. the pdtable readers and writers are `Disciplined` whenever the frame table is `EnclosedByWith`, for every
       number of blocks, sheets and files; corollaries for the current source;
-   5. what a regression looks like (bare open, unmanaged row iterator = defect D18 before its fix).
+   5. what a regression looks like (bare open, unmanaged row iterator = defect D18 before its fix, direct
+      `wb.save(path)` = defect D31 before its fix).
+  PARTIAL: `write_excel(backend=XLSXWRITER)` is not covered (`writer_closes_on_failure_partial`; the two
+  conditional `xlsxwriter_*` theorems say what would have to be known about that library).
 
   Trusted (DESIGN §4): the CPython rules the combinators of Model/Resource.lean encode.  Partial in that sense:
   a leak that depends on a reference cycle or on a non-refcounting interpreter cannot be exhibited by the model.
@@ -39,7 +42,10 @@ theorem withFrames_pinned : Gen.withFrames = [
   ("write_excel", [("call write_excel_func", [])], [], [], []),
   ("read_sheets", [("yield",
     ["closing(openpyxl.load_workbook(<param>, read_only=True, data_only=True, keep_links=False))"])], [], [], []),
-  ("write_excel_openpyxl", [("call _append_table_to_openpyxl_worksheet", []), ("call <local>.save", [])], [], [], []),
+  ("write_excel_openpyxl", [("call _append_table_to_openpyxl_worksheet", []), ("call <local>.save", []),
+    ("call <local>.write", ["open(<param>, 'wb')"]), ("call <local>.save", [])], [], [], []),
+  ("write_excel_xlsxwriter", [("call _append_table_to_xlsxwriter_worksheet", [])],
+    ["xlsxwriter.Workbook(<param>, <param>)"], ["<param>.items"], ["<local>.close()"]),
   ("FileReader.read", [("yield from read_csv", []), ("yield from read_excel", [])], [], [], []),
   ("IncludeReader.read", [("yield", [])], [], ["<param>.reader.read"], []),
   ("queued_load", [("yield from <local>.read", [])], [], [], []),
@@ -60,15 +66,20 @@ def rowEnclosed (r : Row) : Bool :=
     (and all write calls) of its function; the frames are the ones the model gives a meaning to; the generators
     that are iterated by a `for` are the ones the model treats as held; the delegations are `yield from`s. -/
 def enclosedByWith (tbl : Table) : Bool :=
-  tbl.all rowEnclosed &&
+  -- two rows are judged by their own clauses below: write_excel_openpyxl (its points are not all inside the one
+  -- `with`: the tables and `wb.save(buffer)` run with nothing open, only `f.write` is inside `with open(...)`)
+  -- and write_excel_xlsxwriter, which is NOT enclosed (bare `xlsxwriter.Workbook(path)` + explicit `wb.close()`):
+  -- it is excluded here and treated separately (`writer_closes_on_failure_partial`, `xlsxwriter_*`).
+  tbl.all (fun r => r.name == "write_excel_openpyxl" || r.name == "write_excel_xlsxwriter" || rowEnclosed r) &&
   frameOf tbl "read_csv" == .withs [.openIfPath] &&
   frameOf tbl "read_sheets" == .withs [.closingWorkbook] &&
   frameOf tbl "read_excel" == .withs [.closingRows] &&
   frameOf tbl "write_csv" == .withs [.openIfPath] &&
-  frameOf tbl "write_excel_openpyxl" == .withs [] &&
+  saveShape tbl == .buffered &&
   holds tbl "read_excel" "read_sheets" && holds tbl "IncludeReader.read" "<param>.reader.read" &&
   hasPoint tbl "FileReader.read" "yield from read_csv" && hasPoint tbl "FileReader.read" "yield from read_excel" &&
-  hasPoint tbl "queued_load" "yield from <local>.read" && hasPoint tbl "load_files" "yield from queued_load"
+  hasPoint tbl "queued_load" "yield from <local>.read" && hasPoint tbl "load_files" "yield from queued_load" &&
+  frameOf tbl "write_excel_xlsxwriter" == .bareOpen
 
 end Spec
 
@@ -82,10 +93,10 @@ theorem source_enclosed : EnclosedByWith Gen.withFrames := by decide
 theorem enclosed_shapes {tbl : Table} (h : EnclosedByWith tbl) :
     frameOf tbl "read_csv" = .withs [.openIfPath] ∧ frameOf tbl "read_sheets" = .withs [.closingWorkbook] ∧
     frameOf tbl "read_excel" = .withs [.closingRows] ∧ frameOf tbl "write_csv" = .withs [.openIfPath] ∧
-    frameOf tbl "write_excel_openpyxl" = .withs [] := by
+    saveShape tbl = .buffered := by
   unfold EnclosedByWith Spec.enclosedByWith at h
   simp only [Bool.and_eq_true, beq_iff_eq] at h
-  obtain ⟨⟨⟨⟨⟨⟨⟨⟨⟨⟨⟨_, a⟩, b⟩, c⟩, d⟩, e⟩, _⟩, _⟩, _⟩, _⟩, _⟩, _⟩ := h
+  obtain ⟨⟨⟨⟨⟨⟨⟨⟨⟨⟨⟨⟨_, a⟩, b⟩, c⟩, d⟩, e⟩, _⟩, _⟩, _⟩, _⟩, _⟩, _⟩, _⟩ := h
   exact ⟨a, b, c, d, e⟩
 
 /-! ## 2. the semantic core -/
@@ -197,17 +208,17 @@ theorem closeAll_keeps (hs rest : List Handle) (s : St) (hb : s.bad = []) (hl : 
       exact (a.append_left hs).append_left _
     exact hled.trans (h1.trans h2)
 
-theorem adv_inv (fail : Bool) : ∀ (t : Trace) (s : St), s.bad = [] → (∀ h ∈ s.opn, h.isLib = true) →
+theorem adv_inv : ∀ (t : Trace) (m : Mode) (s : St), s.bad = [] → (∀ h ∈ s.opn, h.isLib = true) →
     (∀ h ∈ s.closed, h.isLib = true) → s.opened.Perm (s.closed ++ s.opn) → s.tb = [] →
-    walk s.opn t = some [] → Inv (adv fail t s) := by
+    walk s.opn t = some [] → Inv (adv m t s) := by
   intro t
   induction t with
   | nil =>
-    intro s hb hl hc hled htb hw
+    intro m s hb hl hc hled htb hw
     simp only [walk, Option.some.injEq] at hw
     exact ⟨hb, hl, hc, hled, by simp [adv, St.finish, htb, hw]⟩
   | cons e t ih =>
-    intro s hb hl hc hled htb hw
+    intro m s hb hl hc hled htb hw
     cases e with
     | acq h =>
       simp only [walk] at hw
@@ -250,15 +261,35 @@ theorem adv_inv (fail : Bool) : ∀ (t : Trace) (s : St), s.bad = [] → (∀ h 
       split at hw
       · rename_i hc'
         simp only [Bool.and_eq_true, List.isPerm_iff] at hc'
-        cases fail with
-        | true =>
+        cases m with
+        | failBlock =>
           obtain ⟨a, b, c, d, e⟩ := closeAll_keeps f.now f.later s hb hl hc hled hc'.1
-          simp only [adv, if_true]
+          simp only [adv]
           exact ⟨by simpa [St.finish] using a, by simpa [St.finish] using b, by simpa [St.finish] using c,
             by simpa [St.finish] using d, by simpa [St.finish] using e⟩
-        | false =>
-          simp only [adv, Bool.false_eq_true, if_false]
+        | deliver =>
+          simp only [adv]
           exact ⟨hb, hl, hc, hled, ⟨hc'.2, htb, hw⟩⟩
+        | failGap k =>
+          simp only [adv]
+          exact ⟨hb, hl, hc, hled, ⟨hc'.2, htb, hw⟩⟩
+      · cases hw
+    | gap c =>
+      simp only [walk] at hw
+      split at hw
+      · rename_i hc'
+        simp only [List.isPerm_iff] at hc'
+        cases m with
+        | deliver => simp only [adv]; exact ih _ s hb hl hc hled htb hw
+        | failBlock => simp only [adv]; exact ih _ s hb hl hc hled htb hw
+        | failGap k =>
+          cases k with
+          | zero =>
+            obtain ⟨a, b, c', d, e⟩ := closeAll_keeps c.now c.later s hb hl hc hled hc'
+            simp only [adv]
+            exact ⟨by simpa [St.finish] using a, by simpa [St.finish] using b, by simpa [St.finish] using c',
+              by simpa [St.finish] using d, by simpa [St.finish] using e⟩
+          | succ k => simp only [adv]; exact ih _ s hb hl hc hled htb hw
       · cases hw
 
 theorem step_inv {s : St} (hi : Inv s) (a : Action) : Inv (step s a) := by
@@ -273,10 +304,10 @@ theorem step_inv {s : St} (hi : Inv s) (a : Action) : Inv (step s a) := by
       | done => exact absurd hp hnd
       | notStarted =>
         rw [hp] at hpc
-        exact adv_inv false s.rest s hb hl hc hled hpc.2.1 (by rw [hpc.1]; exact hpc.2.2)
+        exact adv_inv s.rest .deliver s hb hl hc hled hpc.2.1 (by rw [hpc.1]; exact hpc.2.2)
       | suspendedAt k su =>
         rw [hp] at hpc
-        exact adv_inv false s.rest s hb hl hc hled hpc.2.1 hpc.2.2
+        exact adv_inv s.rest .deliver s hb hl hc hled hpc.2.1 hpc.2.2
   | throwInBlock =>
     simp only [step]
     split
@@ -286,10 +317,23 @@ theorem step_inv {s : St} (hi : Inv s) (a : Action) : Inv (step s a) := by
       | done => exact absurd hp hnd
       | notStarted =>
         rw [hp] at hpc
-        exact adv_inv true s.rest s hb hl hc hled hpc.2.1 (by rw [hpc.1]; exact hpc.2.2)
+        exact adv_inv s.rest .failBlock s hb hl hc hled hpc.2.1 (by rw [hpc.1]; exact hpc.2.2)
       | suspendedAt k su =>
         rw [hp] at hpc
-        exact adv_inv true s.rest s hb hl hc hled hpc.2.1 hpc.2.2
+        exact adv_inv s.rest .failBlock s hb hl hc hled hpc.2.1 hpc.2.2
+  | throwInGap j =>
+    simp only [step]
+    split
+    · rename_i hd; exact ⟨hb, hl, hc, hled, by simpa [hd] using hpc⟩
+    · rename_i hnd
+      cases hp : s.pc with
+      | done => exact absurd hp hnd
+      | notStarted =>
+        rw [hp] at hpc
+        exact adv_inv s.rest (.failGap j) s hb hl hc hled hpc.2.1 (by rw [hpc.1]; exact hpc.2.2)
+      | suspendedAt k su =>
+        rw [hp] at hpc
+        exact adv_inv s.rest (.failGap j) s hb hl hc hled hpc.2.1 hpc.2.2
   | close =>
     simp only [step]
     split
@@ -399,25 +443,34 @@ theorem terminal_after_drop (s : St) (h : s.tb = []) : Terminal (step s .drop) :
 
 @[simp] theorem open1_rest (s : St) (h : Handle) : (s.open1 h).rest = s.rest := by unfold St.open1; split <;> rfl
 
-theorem adv_done_or_shorter (fail : Bool) : ∀ (t : Trace) (s : St),
-    (adv fail t s).pc = .done ∨ (adv fail t s).rest.length < t.length := by
+theorem adv_done_or_shorter : ∀ (t : Trace) (m : Mode) (s : St),
+    (adv m t s).pc = .done ∨ (adv m t s).rest.length < t.length := by
   intro t
   induction t with
-  | nil => intro s; left; simp [adv, St.finish]
+  | nil => intro m s; left; simp [adv, St.finish]
   | cons e t ih =>
-    intro s
+    intro m s
     cases e with
-    | acq h => simp only [adv]; rcases ih (s.open1 h) with h1 | h1; exact .inl h1; exact .inr (by simp; omega)
-    | rel h => simp only [adv]; rcases ih (s.close1 h) with h1 | h1; exact .inl h1; exact .inr (by simp; omega)
-    | point f su => cases fail <;> simp [adv, St.finish]
+    | acq h => simp only [adv]; rcases ih m (s.open1 h) with h1 | h1; exact .inl h1; exact .inr (by simp; omega)
+    | rel h => simp only [adv]; rcases ih m (s.close1 h) with h1 | h1; exact .inl h1; exact .inr (by simp; omega)
+    | point f su => cases m <;> simp [adv, St.finish]
+    | gap c =>
+      cases m with
+      | deliver => simp only [adv]; rcases ih .deliver s with h1 | h1; exact .inl h1; exact .inr (by simp; omega)
+      | failBlock => simp only [adv]; rcases ih .failBlock s with h1 | h1; exact .inl h1; exact .inr (by simp; omega)
+      | failGap k =>
+        cases k with
+        | zero => simp [adv, St.finish]
+        | succ k => simp only [adv]; rcases ih (.failGap k) s with h1 | h1; exact .inl h1; exact .inr (by simp; omega)
 
-theorem adv_true_done : ∀ (t : Trace) (s : St), (adv true t s).pc = .done := by
+/-- a `next` during which the block production fails always ends the generator -/
+theorem adv_true_done : ∀ (t : Trace) (s : St), (adv .failBlock t s).pc = .done := by
   intro t
   induction t with
   | nil => intro s; simp [adv, St.finish]
   | cons e t ih => intro s; cases e <;> simp [adv, St.finish, ih]
 
-theorem adv_false_tb : ∀ (t : Trace) (s : St), (adv false t s).tb = s.tb := by
+theorem adv_false_tb : ∀ (t : Trace) (s : St), (adv .deliver t s).tb = s.tb := by
   intro t
   induction t with
   | nil => intro s; simp [adv, St.finish]
@@ -445,10 +498,10 @@ theorem exhaust_done : ∀ (n : Nat) (s : St), s.rest.length < n →
           simp only [List.replicate_succ, List.foldl_cons]
           exact ihm _ (by simp [step, hu])
       exact hstay n _ (by simp [step, hd])
-    · have hs' : step s .next = adv false s.rest s := by
+    · have hs' : step s .next = adv .deliver s.rest s := by
         simp only [step]
         all_goals (split <;> first | rfl | (rename_i h'; exact absurd h' hd))
-      rcases adv_done_or_shorter false s.rest s with h1 | h1
+      rcases adv_done_or_shorter s.rest .deliver s with h1 | h1
       · have hstay : ∀ (m : Nat) (u : St), u.pc = .done → ((List.replicate m Action.next).foldl step u).pc = .done := by
           intro m
           induction m with
@@ -487,6 +540,7 @@ theorem terminal_after_error_release (s : St) : Terminal (step (step s .throwInB
 def noDeferred (t : Trace) : Bool :=
   t.all fun e => match e with
     | .point f s => f.later.isEmpty && s.later.isEmpty
+    | .gap c => c.later.isEmpty
     | _ => true
 
 structure NDInv (s : St) : Prop where
@@ -494,32 +548,42 @@ structure NDInv (s : St) : Prop where
   rest : noDeferred s.rest = true
   scope : ∀ k su, s.pc = .suspendedAt k su → su.later = []
 
-theorem adv_nd (fail : Bool) : ∀ (t : Trace) (s : St), s.tb = [] → noDeferred t = true → NDInv (adv fail t s) := by
+theorem adv_nd : ∀ (t : Trace) (m : Mode) (s : St), s.tb = [] → noDeferred t = true → NDInv (adv m t s) := by
   intro t
   induction t with
-  | nil => intro s h _; exact ⟨by simpa [adv, St.finish] using h, by simp [adv, St.finish, noDeferred], by simp [adv, St.finish]⟩
+  | nil => intro m s h _; exact ⟨by simpa [adv, St.finish] using h, by simp [adv, St.finish, noDeferred], by simp [adv, St.finish]⟩
   | cons e t ih =>
-    intro s h hn
+    intro m s h hn
     have hn' : noDeferred t = true := by
       simp only [noDeferred, List.all_cons, Bool.and_eq_true] at hn; exact hn.2
     cases e with
-    | acq x => simp only [adv]; exact ih _ (by simpa using h) hn'
-    | rel x => simp only [adv]; exact ih _ (by simpa using h) hn'
+    | acq x => simp only [adv]; exact ih _ _ (by simpa using h) hn'
+    | rel x => simp only [adv]; exact ih _ _ (by simpa using h) hn'
     | point f su =>
       simp only [noDeferred, List.all_cons, Bool.and_eq_true, List.isEmpty_iff] at hn
-      cases fail with
-      | true => exact ⟨by simp [adv, St.finish, hn.1.1], by simp [adv, St.finish, noDeferred], by simp [adv, St.finish]⟩
-      | false =>
-        refine ⟨by simpa [adv] using h, by simpa [adv] using hn', ?_⟩
-        intro k su' hk
-        simp only [adv, Bool.false_eq_true, if_false, Pc.suspendedAt.injEq] at hk
-        rw [← hk.2]; exact hn.1.2
+      have hsusp : ∀ s' : St, s'.tb = [] → s'.rest = t → (∀ k su', s'.pc = .suspendedAt k su' → su' = su) →
+          NDInv s' := fun s' h1 h2 h3 =>
+        ⟨h1, by rw [h2]; exact hn', fun k su' hk => by rw [h3 k su' hk]; exact hn.1.2⟩
+      cases m with
+      | failBlock => exact ⟨by simp [adv, St.finish, hn.1.1], by simp [adv, St.finish, noDeferred], by simp [adv, St.finish]⟩
+      | deliver => exact hsusp _ (by simpa [adv] using h) (by simp [adv]) (by simp [adv])
+      | failGap j => exact hsusp _ (by simpa [adv] using h) (by simp [adv]) (by simp [adv])
+    | gap c =>
+      simp only [noDeferred, List.all_cons, Bool.and_eq_true, List.isEmpty_iff] at hn
+      cases m with
+      | deliver => simp only [adv]; exact ih _ _ h hn'
+      | failBlock => simp only [adv]; exact ih _ _ h hn'
+      | failGap j =>
+        cases j with
+        | zero => exact ⟨by simp [adv, St.finish, hn.1], by simp [adv, St.finish, noDeferred], by simp [adv, St.finish]⟩
+        | succ j => simp only [adv]; exact ih _ _ h hn'
 
 theorem step_nd {s : St} (hi : NDInv s) (a : Action) : NDInv (step s a) := by
   obtain ⟨htb, hr, hsc⟩ := hi
   cases a with
   | next => simp only [step]; split; exact ⟨htb, hr, by simpa using hsc⟩; exact adv_nd _ _ _ htb hr
   | throwInBlock => simp only [step]; split; exact ⟨htb, hr, by simpa using hsc⟩; exact adv_nd _ _ _ htb hr
+  | throwInGap j => simp only [step]; split; exact ⟨htb, hr, by simpa using hsc⟩; exact adv_nd _ _ _ htb hr
   | close =>
     simp only [step]; split
     · exact ⟨by simpa [St.finish] using htb, by simp [St.finish, noDeferred], by simp [St.finish]⟩
@@ -560,6 +624,13 @@ theorem error_closes_immediately {t : Trace} (h : WF t) (hn : noDeferred t = tru
   have := library_handles_closed h _ hT
   exact ⟨hpc, this.1, this.2.2⟩
 
+/-- the same for a failure between two blocks (`throwInGap`), whenever it does end the generator -/
+theorem gap_error_closes_immediately {t : Trace} (h : WF t) (hn : noDeferred t = true) (hs : List Action) (k : Nat)
+    (hd : (runAll t (hs ++ [.throwInGap k])).pc = .done) : (runAll t (hs ++ [.throwInGap k])).opn = [] ∧
+    (runAll t (hs ++ [.throwInGap k])).bad = [] :=
+  let r := library_handles_closed h _ ⟨hd, (run_nd hn _).tb⟩
+  ⟨r.1, r.2.2⟩
+
 /-- the same for an exception thrown into the suspended generator by the consumer -/
 theorem throw_closes_immediately {t : Trace} (h : WF t) (hn : noDeferred t = true) (hs : List Action)
     (hd : (runAll t (hs ++ [.throw])).pc = .done) : (runAll t (hs ++ [.throw])).opn = [] :=
@@ -573,6 +644,7 @@ def acqs : Trace → List Handle
   | .acq h :: t => h :: acqs t
   | .rel _ :: t => acqs t
   | .point _ _ :: t => acqs t
+  | .gap _ :: t => acqs t
 
 theorem acqs_append (t u : Trace) : acqs (t ++ u) = acqs t ++ acqs u := by
   induction t with
@@ -606,6 +678,7 @@ theorem acqs_reyield : ∀ (g : Trace) (ks : List Bool), acqs (reyield g ks) = a
     cases e with
     | acq h => simp [reyield, acqs, ih]
     | rel h => simp [reyield, acqs, ih]
+    | gap c => simp [reyield, acqs, ih]
     | point f s =>
       cases ks with
       | nil => simp [reyield, acqs, ih]
@@ -627,6 +700,7 @@ theorem mem_acqs_forHeld : ∀ (g : Trace) (bs : List Trace) (h : Handle), h ∈
         · exact .inl (.inr h1)
         · exact .inr h1
     | rel x => simpa [forHeld, acqs] using ih bs h (by simpa [forHeld, acqs] using hm)
+    | gap c => simpa [forHeld, acqs] using ih bs h (by simpa [forHeld, acqs] using hm)
     | point f s =>
       cases bs with
       | nil => simpa [forHeld, acqs] using ih [] h (by simpa [forHeld, acqs] using hm)
@@ -677,6 +751,22 @@ theorem walk_under (c c' : List Handle) (hcc : c.Perm c') : ∀ (t : Trace) (o r
         simp only [under] at this
         simp [hc, List.erase_append_left _ hc, this]
       · cases hw
+    | gap g =>
+      simp only [walk] at hw
+      split at hw
+      · rename_i hc
+        simp only [List.isPerm_iff] at hc
+        have := ih o r (fun x hx => hd x (by simpa [acqs] using hx)) hw
+        simp only [under, List.map_cons, Ev.push, walk]
+        simp only [under] at this
+        have p1 : (g.push c).all.Perm (o ++ c') := by
+          simp only [Cleanup.push, Cleanup.all]
+          have : (g.now ++ c ++ g.later).Perm (g.now ++ g.later ++ c) := by
+            rw [List.append_assoc, List.append_assoc]
+            exact List.Perm.append_left _ List.perm_append_comm
+          exact this.trans (List.Perm.append hc hcc)
+        simp [List.isPerm_iff, p1, this]
+      · cases hw
     | point f s =>
       simp only [walk] at hw
       split at hw
@@ -714,6 +804,11 @@ theorem walk_reyield : ∀ (g : Trace) (ks : List Bool) (o r : List Handle),
       · rename_i hc; simp only [reyield, walk, hc, if_true]; exact ih ks _ r hw
       · cases hw
     | rel h =>
+      simp only [walk] at hw
+      split at hw
+      · rename_i hc; simp only [reyield, walk, hc, if_true]; exact ih ks _ r hw
+      · cases hw
+    | gap c =>
       simp only [walk] at hw
       split at hw
       · rename_i hc; simp only [reyield, walk, hc, if_true]; exact ih ks _ r hw
@@ -762,6 +857,16 @@ theorem walk_forHeld : ∀ (g : Trace) (bs : List Trace) (o r : List Handle),
         obtain ⟨h1, h2⟩ := hd b hbm h hh
         exact ⟨fun hm => h1 (List.mem_of_mem_erase hm), by simpa [acqs] using h2⟩
       · cases hw
+    | gap c =>
+      simp only [walk] at hw
+      split at hw
+      · rename_i hc
+        simp only [forHeld, walk, hc, if_true]
+        refine ih bs _ r hb ?_ hw
+        intro b hbm h hh
+        obtain ⟨h1, h2⟩ := hd b hbm h hh
+        exact ⟨h1, by simpa [acqs] using h2⟩
+      · cases hw
     | point f s =>
       simp only [walk] at hw
       split at hw
@@ -794,6 +899,7 @@ theorem walk_plain (n : Nat) (o : List Handle) (f : Cleanup) (hf : f.all.Perm o)
     by a lazy row iterator that closes itself / an external call that opens and closes) — arbitrary nesting -/
 inductive Disciplined : Trace → Prop
   | nil : Disciplined []
+  | gap : Disciplined [.gap noCleanup]
   | plain (n : Nat) : Disciplined (plainBlocks n)
   | lazyRows (m : Handle) (mg : Bool) (pre post : Nat) : m.isLib = true → Disciplined (lazyBlocks m mg pre post)
   | external (h : Handle) : h.isLib = true → Disciplined [.acq h, .rel h]
@@ -812,6 +918,7 @@ theorem disciplined_wf {t : Trace} (h : Disciplined t) : WF t := by
   unfold WF
   induction h with
   | nil => rfl
+  | gap => simp [walk, noCleanup, Cleanup.all, List.isPerm_iff]
   | plain n => exact walk_plain n [] noCleanup (by simp [noCleanup, Cleanup.all])
   | lazyRows m mg pre post hm =>
     simp only [lazyBlocks, walk, hm, List.contains_nil, Bool.not_false, Bool.and_self, if_true, walk_append]
@@ -907,7 +1014,7 @@ theorem queuedLoad_disciplined {tbl : Table} (he : EnclosedByWith tbl) (files : 
   | nil => exact .nil
   | cons x files ih =>
     obtain ⟨fs, keep⟩ := x
-    exact .seq (.deleg (.reyield keep (fileRead_disciplined he fs))) ih
+    exact .seq .gap (.seq (.deleg (.reyield keep (fileRead_disciplined he fs))) ih)
 
 theorem loadFiles_disciplined {tbl : Table} (he : EnclosedByWith tbl) (files : List (FileSpec × List Bool)) :
     Disciplined (loadFiles tbl files) := .deleg (queuedLoad_disciplined he files)
@@ -930,7 +1037,10 @@ theorem writeExcel_disciplined {tbl : Table} (he : EnclosedByWith tbl) (dst : Sr
   obtain ⟨_, _, _, _, h5⟩ := enclosed_shapes he
   unfold writeExcel
   rw [h5]
-  exact .seq (.plain n) (.external _ rfl)
+  cases dst with
+  | path f =>
+    exact .seq (.plain n) (.seq .gap (.withAcquire _ .gap rfl (by simp [acqs])))
+  | stream c => exact .seq (.plain n) .gap
 
 /-- the API entry points of C19 -/
 inductive Api
@@ -973,6 +1083,9 @@ theorem noDeferred_under (c : List Handle) (t : Trace) : noDeferred (under c t) 
   simp [noDeferred]
 @[simp] theorem noDeferred_rel (h : Handle) (t : Trace) : noDeferred (.rel h :: t) = noDeferred t := by
   simp [noDeferred]
+@[simp] theorem noDeferred_gap (c : Cleanup) (t : Trace) :
+    noDeferred (.gap c :: t) = (c.later.isEmpty && noDeferred t) := by
+  simp [noDeferred]
 
 theorem noDeferred_plain (n : Nat) : noDeferred (plainBlocks n) = true := by
   simp [noDeferred, plainBlocks, noCleanup]
@@ -991,6 +1104,10 @@ theorem noDeferred_reyield : ∀ (g : Trace) (ks : List Bool), noDeferred g = tr
     cases e with
     | acq x => simpa [reyield, noDeferred] using ih ks hg
     | rel x => simpa [reyield, noDeferred] using ih ks hg
+    | gap c =>
+      have := ih ks hg
+      simp only [reyield, noDeferred_gap, Bool.and_eq_true]
+      exact ⟨by simpa using h.1, this⟩
     | point f s =>
       have hf := h.1
       simp only [Bool.and_eq_true, List.isEmpty_iff] at hf
@@ -1016,6 +1133,10 @@ theorem noDeferred_forHeld : ∀ (g : Trace) (bs : List Trace), noDeferred g = t
     cases e with
     | acq x => simpa [forHeld, noDeferred] using ih bs hg hb
     | rel x => simpa [forHeld, noDeferred] using ih bs hg hb
+    | gap c =>
+      have := ih bs hg hb
+      simp only [forHeld, noDeferred_gap, Bool.and_eq_true]
+      exact ⟨by simpa using h.1, this⟩
     | point f s =>
       cases bs with
       | nil => simpa [forHeld] using ih [] hg (by simp)
@@ -1069,8 +1190,8 @@ theorem api_noDeferred {tbl : Table} (he : EnclosedByWith tbl) (a : Api) : noDef
     | nil => rfl
     | cons x files ih =>
       obtain ⟨fs, keep⟩ := x
-      simp only [queuedLoad, Resource.deleg, includeRead, noDeferred_append, Bool.and_eq_true]
-      exact ⟨noDeferred_reyield _ keep (hfile fs), ih⟩
+      simp only [queuedLoad, Resource.deleg, includeRead, noDeferred_gap, noDeferred_append, Bool.and_eq_true]
+      exact ⟨by simp [noCleanup], noDeferred_reyield _ keep (hfile fs), ih⟩
   | writeCsv dst n =>
     simp only [Api.trace]
     unfold Resource.writeCsv; rw [h4]
@@ -1078,7 +1199,7 @@ theorem api_noDeferred {tbl : Table} (he : EnclosedByWith tbl) (a : Api) : noDef
   | writeExcel dst n =>
     simp only [Api.trace]
     unfold Resource.writeExcel; rw [h5]
-    simp [noDeferred_append, noDeferred_plain]
+    cases dst <;> simp [withC, under, Ev.push, Cleanup.push, noDeferred_append, noDeferred_plain, noCleanup]
 
 /-- **C19 for pdtable**, parameterised by the frame table: for every table satisfying `EnclosedByWith`, every
     reader / writer call, every number of blocks, sheets and files, every history: once the consumer is through
@@ -1105,9 +1226,26 @@ theorem api_error_closes_immediately {tbl : Table} (he : EnclosedByWith tbl) (a 
     (runAll (a.trace tbl) (hs ++ [.throwInBlock])).bad = [] :=
   error_closes_immediately (disciplined_wf (api_disciplined he a)) (api_noDeferred he a) hs
 
-/-- **C19, writers.**  A table that fails to serialise at position `k` leaves nothing open and no caller stream
-    closed, for write_csv and write_excel, path or stream. -/
-theorem writer_closes_on_failure {tbl : Table} (he : EnclosedByWith tbl) (dst : Src) (n k : Nat) :
+/-- a failure between two blocks (queued_load between two files; write_excel while the workbook is serialised or
+    written to the target) that ends the run leaves nothing open when it reaches the caller -/
+theorem api_gap_error_closes_immediately {tbl : Table} (he : EnclosedByWith tbl) (a : Api) (hs : List Action)
+    (k : Nat) (hd : (runAll (a.trace tbl) (hs ++ [.throwInGap k])).pc = .done) :
+    (runAll (a.trace tbl) (hs ++ [.throwInGap k])).opn = [] ∧ (runAll (a.trace tbl) (hs ++ [.throwInGap k])).bad = [] :=
+  gap_error_closes_immediately (disciplined_wf (api_disciplined he a)) (api_noDeferred he a) hs k hd
+
+/-- **C19, writers — partial.**
+    Full statement: `write_csv` and `write_excel` (every backend) leave nothing open and no caller stream closed
+    when a table fails to serialise at any position `k`.
+    Proved here: `write_csv` and `write_excel` with the default backend (`write_excel_openpyxl`), path or stream,
+    a failing table at position `k` (this theorem) and a failure while the finished workbook is serialised or
+    written to the target (`write_excel_save_failure_closes`).
+    Missing: `write_excel(backend=ExcelWriteBackend.XLSXWRITER)`.  `write_excel_xlsxwriter` is
+    `wb = xlsxwriter.Workbook(path) … wb.close()` with neither `with` nor `try/finally` (row of the frame table:
+    opener outside any `with`, explicit close; pinned in `withFrames_pinned`, excluded from `EnclosedByWith`).
+    Whether that leaks depends on when xlsxwriter opens the target, and xlsxwriter is not installed in this
+    environment, so it can neither be observed nor be exercised: see `xlsxwriter_closes_if_target_opened_in_close`
+    and `xlsxwriter_leaks_if_target_opened_in_constructor` for the two cases. -/
+theorem writer_closes_on_failure_partial {tbl : Table} (he : EnclosedByWith tbl) (dst : Src) (n k : Nat) :
     let hs := List.replicate k Action.next ++ [Action.throwInBlock]
     (runAll (writeCsv tbl dst n) hs).opn = [] ∧ (runAll (writeExcel tbl dst n) hs).opn = [] ∧
     (∀ c, Handle.caller c ∉ (runAll (writeCsv tbl dst n) hs).closed) ∧
@@ -1117,6 +1255,50 @@ theorem writer_closes_on_failure {tbl : Table} (he : EnclosedByWith tbl) (dst : 
     (api_error_closes_immediately he (.writeExcel dst n) _).2.1,
     caller_stream_untouched (disciplined_wf (api_disciplined he (.writeCsv dst n))) _,
     caller_stream_untouched (disciplined_wf (api_disciplined he (.writeExcel dst n))) _⟩
+
+/-- write_excel (openpyxl): a failure while the workbook is serialised (`k = 0`: `wb.save(buffer)` / `wb.save(stream)`,
+    nothing is open and the target file is not even created) or while the bytes are written to the target
+    (`k = 1`: inside `with open(path, 'wb')`) leaves nothing open, for every number of tables. -/
+theorem write_excel_save_failure_closes {tbl : Table} (he : EnclosedByWith tbl) (dst : Src) (n k : Nat)
+    (hd : (runAll (writeExcel tbl dst n) (List.replicate n Action.next ++ [.throwInGap k])).pc = .done) :
+    (runAll (writeExcel tbl dst n) (List.replicate n Action.next ++ [.throwInGap k])).opn = [] ∧
+    ∀ c, Handle.caller c ∉ (runAll (writeExcel tbl dst n) (List.replicate n Action.next ++ [.throwInGap k])).closed :=
+  ⟨(api_gap_error_closes_immediately he (.writeExcel dst n) _ k hd).1,
+   caller_stream_untouched (disciplined_wf (api_disciplined he (.writeExcel dst n))) _⟩
+
+/-- non-vacuity of the `hd` hypothesis: both failure sites of a three-table workbook are reached and end the run -/
+example : (runAll (writeExcel Gen.withFrames (.path 0) 3) [.next, .next, .next, .throwInGap 0]).pc = .done ∧
+    (runAll (writeExcel Gen.withFrames (.path 0) 3) [.next, .next, .next, .throwInGap 0]).opened = [] ∧
+    (runAll (writeExcel Gen.withFrames (.path 0) 3) [.next, .next, .next, .throwInGap 1]).pc = .done ∧
+    (runAll (writeExcel Gen.withFrames (.path 0) 3) [.next, .next, .next, .throwInGap 1]).closed = [.lib (.path 0) 0] ∧
+    (runAll (writeExcel Gen.withFrames (.stream 0) 3) [.next, .next, .next, .throwInGap 0]).pc = .done := by decide
+
+/-! the xlsxwriter backend (not covered by `EnclosedByWith`; external behaviour unknown here: both cases) -/
+
+/-- if xlsxwriter opens the target only inside `close()` (opens and closes within that call), the writer is
+    disciplined: a failing table leaves nothing open (the target is not even created) -/
+theorem xlsxwriter_closes_if_target_opened_in_close (dst : Src) (n : Nat) (hs : List Action) :
+    Disciplined (writeExcelXlsxwriter false dst n) ∧
+    (runAll (writeExcelXlsxwriter false dst n) (hs ++ [.throwInBlock])).opn = [] := by
+  have hd : Disciplined (writeExcelXlsxwriter false dst n) := by
+    simp only [writeExcelXlsxwriter, Bool.false_eq_true, if_false]
+    exact .seq (.plain n) (.external _ rfl)
+  have hn : noDeferred (writeExcelXlsxwriter false dst n) = true := by
+    simp [writeExcelXlsxwriter, noDeferred_append, noDeferred_plain]
+  exact ⟨hd, (error_closes_immediately (disciplined_wf hd) hn hs).2.1⟩
+
+/-- if xlsxwriter opens the target in the constructor, `wb = Workbook(path) … wb.close()` without `try/finally`
+    leaves the file to the deallocator when a table fails: the library never closes it -/
+theorem xlsxwriter_leaks_if_target_opened_in_constructor :
+    wf (writeExcelXlsxwriter true (.path 0) 2) = false ∧
+    (runAll (writeExcelXlsxwriter true (.path 0) 2) [.next, .throwInBlock, .releaseExc]).opn = [.lib (.path 0) 0] ∧
+    (runAll (writeExcelXlsxwriter true (.path 0) 2) [.next, .next, .next]).opn = [] := by decide
+
+/-- the frame table says what the source is: an opener outside any `with` and an explicit close -/
+theorem xlsxwriter_row_not_enclosed :
+    frameOf Gen.withFrames "write_excel_xlsxwriter" = .bareOpen ∧
+    (Gen.withFrames.filter (fun r => !(Spec.rowEnclosed r))).map Row.name =
+      ["write_excel_openpyxl", "write_excel_xlsxwriter"] := by decide
 
 /-! corollaries for the source as it is now -/
 
@@ -1211,5 +1393,32 @@ theorem unmanaged_rows_defer :
     fdsOpen (runAll (readExcel unmanagedRowsTable (.path 0) [⟨true, 2, 1⟩]) [.next, .throwInBlock, .releaseExc]) = [] ∧
     fdsOpen (runAll (readExcel unmanagedRowsTable (.path 0) [⟨true, 2, 1⟩]) [.next, .next, .throwInBlock]) = [] := by
   decide
+
+/-- defect D31 (fixed in /repo by 5dca582): write_excel_openpyxl with `wb.save(path)` directly.  openpyxl's
+    `ExcelWriter.save` is `write_data(); archive.close()` without `finally`: when a cell cannot be converted at
+    save time (a timezone-aware datetime) the archive on the target stays open for as long as the caller holds
+    the exception. -/
+def directSaveTable : Table :=
+  Gen.withFrames.map fun r => if r.name == "write_excel_openpyxl" then
+    ("write_excel_openpyxl", [("call _append_table_to_openpyxl_worksheet", []), ("call <local>.save", [])],
+      [], [], []) else r
+
+theorem unbuffered_save_defers :
+    ¬ EnclosedByWith directSaveTable ∧
+    wf (writeExcel directSaveTable (.path 0) 2) = true ∧
+    fdsOpen (runAll (writeExcel directSaveTable (.path 0) 2) [.next, .next, .throwInGap 0]) = [0] ∧
+    fdsOpen (runAll (writeExcel directSaveTable (.path 0) 2) [.next, .next, .throwInGap 0, .releaseExc]) = [] ∧
+    fdsOpen (runAll (writeExcel Gen.withFrames (.path 0) 2) [.next, .next, .throwInGap 0]) = [] := by decide
+
+/-- load_files: a failure between two files (missing / duplicate / unsupported include, LoadError) finds nothing
+    open, also when files without any block lie in between (`throwInGap 1` skips the gap before such a file) -/
+example :
+    let t := loadFiles Gen.withFrames
+      [(.csv 1 2, [true, true]), (.xlsx 2 [⟨false, 0, 0⟩], []), (.folder, []), (.csv 3 1, [true])]
+    fdsOpen (runAll t [.next, .next]) = [1] ∧
+    (runAll t [.next, .next, .throwInGap 1]).pc = .done ∧ (runAll t [.next, .next, .throwInGap 1]).opn = [] ∧
+    (runAll t [.next, .next, .throwInGap 1]).opened = [.lib (.path 1) 0, .lib (.path 2) 0] ∧
+    (runAll t [.throwInGap 0]).opened = [] ∧
+    (runAll t [.next, .next, .throwInGap 5]).pc = .suspendedAt 3 ⟨[.lib (.path 3) 0], []⟩ := by decide
 
 end Pdt.C19
